@@ -982,9 +982,22 @@ func (it *Interp) assign(fr *frame, lhs []*LV, rhs []Expr, tmp bool, restores *[
 			}
 		}
 	}
+	before := make([]string, len(targets))
+	for i, t := range targets {
+		if len(t.idxs) > 0 {
+			before[i] = Canon(it.getVar(fr, t.lv.decl, t.lv.Name))
+		}
+	}
 	vals, e := it.exprs(fr, rhs)
 	if e != nil {
 		return e
+	}
+	for i, t := range targets {
+		// for the same reason the outcome is not decided when evaluating the
+		// right-hand side changes the variable whose element is assigned
+		if len(t.idxs) > 0 && Canon(it.getVar(fr, t.lv.decl, t.lv.Name)) != before[i] {
+			unspec("right-hand side changes the variable of an element lvalue")
+		}
 	}
 	parts, e := it.distribute(lhs, vals)
 	if e != nil {
